@@ -371,6 +371,15 @@ def callee_info(repo, f):
             g = repo.resolve_call(call, f)
         except Exception:
             return None
+        if g is None and isinstance(call.func, ast.Attribute) and isinstance(call.func.value, ast.Name) and call.func.value.id not in ('self', 'cls'):
+            # obj.method(..) where obj is bound once, to an instance of a class of the package: obj = Class(..)
+            obj = call.func.value.id
+            binds = [st for st in ast.walk(f.node) if isinstance(st, ast.Assign) and any(isinstance(t, ast.Name) and t.id == obj for t in st.targets)]
+            nstores = sum(1 for x in ast.walk(f.node) if isinstance(x, ast.Name) and x.id == obj and isinstance(x.ctx, (ast.Store, ast.Del)))
+            if len(binds) == 1 and nstores == 1 and obj not in f.params and isinstance(binds[0].value, ast.Call) and isinstance(binds[0].value.func, ast.Name):
+                r = repo.resolve_symbol(f.module, binds[0].value.func.id)
+                if isinstance(r, tuple):
+                    g = r[0].funcs.get(r[1].name + '.' + call.func.attr)
         if g is None:
             return None
         a = g.node.args
